@@ -103,8 +103,8 @@ def unbuffered(ctx, prog, which, nemits):
     def scenario_for(i_emit, results_sofar):
         def mk(ex, neg):
             from .writer_model import small_model
-            m = small_model(list(ex.assumptions) + list(ex.pc) + [neg], lens, limits=(8, 64))
-            if m is None:
+            m = small_model(list(ex.assumptions) + list(ex.pc) + [neg], lens, limits=(8, 64, 1 << 17))
+            if m is None or any(m.eval(l, model_completion=True).as_long() > (1 << 17) for l in lens):
                 return None
             script = []
             for ev in ex.events:
@@ -153,6 +153,15 @@ def unbuffered(ctx, prog, which, nemits):
             sc = scenario_for(i, results)
             if len(sends) != 1:
                 ctx.fail(ex, 'C13', 'one-datagram-per-emit', 'emit #%d made %d send attempts' % (i, len(sends)), z3.BoolVal(True), sc(ex, z3.BoolVal(True)))
+                if not sends:
+                    # C14: "the counts and byte lengths of the emits that returned Ok and Err respectively" - an emit that
+                    # returns without a send attempt still has to be counted
+                    if is_variant(r, 'Err'):
+                        tot['bd'] = tot['bd'] + lens[i]
+                        tot['pd'] += 1
+                    elif is_variant(r, 'Ok') and isinstance(r.fields[0], Int):
+                        tot['bs'] = tot['bs'] + r.fields[0].t
+                        tot['ps'] += 1
                 continue
             s = sends[0]
             ctx.oblige(ex, 'C13', 'payload', payload_key(s) == (('str', 'm%d' % i),), 'datagram payload %r is not exactly the metric bytes' % (payload_key(s),), sc)
@@ -281,7 +290,8 @@ def buffered(ctx, prog, which):
             ending = mlw.fields[wm_FI('line_ending')]
             for prop in ('C13', 'C05'):
                 ctx.oblige(ex, prop, 'capacity', z3.And(mlw.fields[wm_FI('capacity')].t == want_cap, bw.state[0].t == want_cap),
-                           'buffered %s sink built with a capacity other than %s' % (which, 'the one given' if ctor == 'with_capacity' else '512'))
+                           'buffered %s sink built with a capacity other than %s' % (which, 'the one given' if ctor == 'with_capacity' else '512'),
+                           (lambda ex_, neg: {'kind': 'sink', 'sink': 'buffered-default-capacity'}) if ctor == 'from' else None)
                 ctx.oblige(ex, prop, 'terminator', ending.key() == (b'\n',), 'line terminator is %r, not a single newline' % (ending,))
             sock = ex.out['sock']
             resolves = [e for e in ex.events if e[0] == 'resolve']
@@ -307,6 +317,20 @@ def buffered(ctx, prog, which):
             if is_variant(r1, 'Ok') and not any(s[4] == 'ok' for s in in_emit):
                 ctx.oblige(ex, 'C13', 'remainder-sent-on-' + how, len(after) >= 1, 'accepted metric still buffered but %s sent nothing' % how)
                 ctx.oblige(ex, 'C06', 'remainder-sent-on-' + how, len(after) >= 1, 'accepted metric still buffered but %s sent nothing' % how)
+            # the write adapter hands the socket's verdict through: a flush whose datagram was refused returns that error,
+            # a flush whose datagrams were all accepted returns Ok (C07: "either returns Ok or returns the socket's error")
+            if how == 'flush':
+                start = ex.out.get('e2') if ex.out.get('e2') is not None else e1
+                fl = [e for e in ex.events[start:] if e[0] == 'send_to']
+                # (an Interrupted attempt is retried by BufWriter: what counts is the last attempt of this flush)
+                bad = [fl[-1]] if fl and fl[-1][4] == 'err' else []
+                natsc = (lambda ex_, neg: {'kind': 'sink', 'sink': 'udp-buffered-refused'}) if which == 'udp' else (lambda ex_, neg: {'kind': 'sink', 'sink': 'unix-buffered-wouldblock'})
+                for prop in ('C13', 'C07'):
+                    if bad:
+                        good = is_variant(r2, 'Err') and isinstance(r2.fields[0], Native) and r2.fields[0].ident == bad[-1][5].ident
+                        ctx.oblige(ex, prop, 'flush-returns-socket-error', bool(good), 'buffered %s sink: the socket refused a datagram during flush but flush returned %r' % (which, r2), natsc)
+                    elif fl:
+                        ctx.oblige(ex, prop, 'flush-returns-socket-result', bool(is_variant(r2, 'Ok')), 'buffered %s sink: every datagram was accepted but flush returned %r' % (which, r2))
             e2 = ex.out.get('e2')
             if e2 is not None and is_variant(r1, 'Ok') and not any(s[4] == 'ok' for s in ex.events[e0:e2] if s[0] == 'send_to'):
                 # nothing has been delivered yet (the first flush failed): the second flush / the drop must try again
@@ -344,7 +368,8 @@ def spy_default(ctx, prog):
         if mlw is None:
             ctx.fail(ex, 'C05', 'buffered-structure', 'no MultiLineWriter inside BufferedSpyMetricSink')
             return
-        ctx.oblige(ex, 'C05', 'capacity', z3.And(mlw.fields[wm_FI('capacity')].t == 512, mlw.fields[wm_FI('inner')].state[0].t == 512), 'spy sink default capacity is not 512')
+        ctx.oblige(ex, 'C05', 'capacity', z3.And(mlw.fields[wm_FI('capacity')].t == 512, mlw.fields[wm_FI('inner')].state[0].t == 512), 'spy sink default capacity is not 512',
+                   lambda ex_, neg: {'kind': 'sink', 'sink': 'buffered-default-capacity'})
         ctx.oblige(ex, 'C05', 'terminator', mlw.fields[wm_FI('line_ending')].key() == (b'\n',), 'spy sink terminator is not a newline')
 
     ex.run(entry, on_path)
@@ -524,7 +549,15 @@ def run(out, replay_path=None):
     tot['total'] += getattr(ctx, 'sched_queries', 0) * 2
     mine = [f for f in ctx.findings if f['prop'] == pid]
     confirmed, replayed = [], 0
-    todo = [f for f in ctx.findings if f['scenario'] is not None][:60]
+    todo, seen_sc = [], set()
+    for f in ctx.findings:
+        if f['scenario'] is None:
+            continue
+        k = json.dumps(f['scenario'], sort_keys=True, default=str)
+        if k not in seen_sc:
+            seen_sc.add(k)
+            todo.append(f)
+    todo = todo[:60]
     if todo:
         outs = replay.run_scenarios([f['scenario'] for f in todo])
         replayed = len(todo)
@@ -551,7 +584,7 @@ def run(out, replay_path=None):
         from . import check_writer
         from .checks import Outcome
         sub = Outcome('C05', out.tier, out.seed)
-        check_writer.run(sub)
+        check_writer.run(sub, with_sinks=False)
         cw = sub.evidence.get('coverage', {})
         out.evidence['coverage']['writer_part'] = {k: cw.get(k) for k in ('obligations', 'queries', 'inductive', 'bounds')}
         for k in ('obligations', 'discharged', 'states', 'transitions', 'evaluations', 'distinct_nontrivial', 'traces_validated_against_impl'):
